@@ -367,6 +367,8 @@ def ite(c, a, b):
 
 
 def int_to_float(v):
+    if z3.is_int_value(v.t):
+        return VFloat(z3.RealVal(v.t.as_long()))        # a numeral, so that x / 2 stays linear for the solver
     return VFloat(z3.ToReal(v.t))
 
 
